@@ -128,9 +128,17 @@ NestBodies == {Qn(q2, "j", Own("ys"), Bn("<", J, K)) : q2 \in {"forall", "exists
              \cup {Qn(q2, "j", Own("ys"), Bn("and", Bn("<", J, K), Own("p"))) : q2 \in {"forall", "exists"}}
              \cup {Qn("forall", "j", Rng("[", NumA("0"), K, "]"), Bn(">", J, NumA("0")))}
 Quants2 == {Qn(q, "k", d, b) : q \in {"forall", "exists"}, d \in {Own("xs"), SetOf(<<NumA("1"), NumA("2")>>)}, b \in NestBodies}
+QCore == {Qn(q, "k", d, b) : q \in {"forall", "exists"}, d \in {Own("xs"), SetOf(<<NumA("1"), NumA("2")>>), Rng("[", NumA("1"), NumA("0"), "]")},
+                             b \in {Bn("and", Bn(">", K, NumA("0")), Bn("<", K, NumA("2"))), Bn("and", Bn(">", K, NumA("0")), Own("p")),
+                                    Bn("or", Bn(">", K, NumA("0")), Own("p")), Bn(">", K, NumA("0")),
+                                    Bn("and", Bn(">", K, NumA("0")), Fld(VarR("@A"), "b"))}}
 QuantExprs ==
   Quants1 \cup Quants2
   \cup {Un("not", t) : t \in Quants1}
+  \* quantifiers under stacked negations and under negated disjunctions / implications
+  \cup {Un("not", Un("not", t)) : t \in QCore} \cup {Un("not", Un("not", Un("not", t))) : t \in QCore}
+  \cup {Un("not", Bn("or", Own("p"), Un("not", t))) : t \in QCore} \cup {Un("not", Bn("implies", Own("p"), Un("not", t))) : t \in QCore}
+  \cup {Bn("and", Own("q"), Un("not", Un("not", t))) : t \in QCore}
   \cup {Bn(op, t, b) : op \in {"and", "or", "implies"}, t \in {Qn(q, "k", Own("xs"), Bn(">", K, NumA("0"))) : q \in {"forall", "exists"}},
                        b \in {Own("p"), Fld(VarR("@A"), "b"), BoolA("False"), BoolA("True")}}
 
@@ -217,6 +225,14 @@ ClashTerms ==
   \cup {Bn("and", b, Bn("and", g, a)) : a \in {Bn("<", Fld(VarR("@A"), "n"), NumA("0"))},
                                         g \in {Call("bool", Fld(VarR("@A"), "n")), Bn("=", Fld(VarR("@A"), "n"), Own("w"))},
                                         b \in {Bn("=", Fld(VarR("@A"), "n"), StrA("$s")), Fld(VarR("@A"), "n")}}
+  \* the bound variable of a literal domain used at a type disjoint from the elements (also after a loosely typed use)
+  \cup {Qn(q, "k", d, b) : q \in {"forall", "exists"},
+                            d \in {SetOf(<<NumA("1"), NumA("2")>>), Rng("[", NumA("1"), NumA("3"), "]")},
+                            b \in {K, Un("not", K), Bn("or", Bn("=", K, Own("a")), K), Bn("implies", Bn("=", K, Own("a")), K),
+                                   Bn("and", Bn("in", K, Own("ys")), Un("not", K)), Bn("=", K, StrA("$s")),
+                                   Bn("and", Bn("=", K, Own("a")), Bn("=", K, StrA("$s")))}}
+  \cup {Qn("forall", "k", SetOf(<<StrA("$s"), StrA("$t")>>), b) :
+                            b \in {Bn(">", K, NumA("0")), Bn("or", Bn("=", K, Own("a")), Bn(">", Bn("+", K, NumA("1")), NumA("0"))), Un("not", K)}}
   \* top level of a predicate is not boolean
   \cup {Bn("+", Own("x"), NumA("1")), NumA("1"), StrA("$s"), SetOf(<<NumA("1"), NumA("2")>>), Call("abs", Own("x")),
         Rng("[", NumA("1"), NumA("2"), "]"), Un("-", Own("x")), Call("len", Own("xs"))}
